@@ -67,6 +67,7 @@ type crashCtx struct {
 	imgN    int
 	synced  map[string]int64 // base name → fsynced length
 	retry   *klevdb.Options  // the operation in flight is an Open with these options: it is retried on the image
+	noImg   bool             // tap only tracks fsynced lengths, no snapshots
 }
 
 func (c *crashCtx) opts(recover bool) klevdb.Options {
@@ -301,7 +302,7 @@ func (c *crashCtx) tapOp(dir string, f func()) []fsEvent {
 				ev.sizeBefore = st.Size() - a
 			}
 		}
-		if kind == "open" || kind == "close" || kind == "fsync" || kind == "dirsync" || kind == "copied" {
+		if kind == "open" || kind == "close" || kind == "fsync" || kind == "dirsync" || kind == "copied" || c.noImg {
 			return // no change of file contents or names: not a new crash image
 		}
 		c.imgN++
@@ -565,6 +566,9 @@ func (c *crashCtx) lossImages(w *bufio.Writer, dir string, r *rng, thorough bool
 			d = strings.Join(desc, ",")
 		}
 		fmt.Fprintf(w, "loss.img %s cuts=%s => %s\n", tag, d, c.observeImage(img))
+		if thorough || tag == "all" || r.chance(25) {
+			c.lossAgain(w, img, tag, d)
+		}
 		_ = os.RemoveAll(img)
 	}
 	// everything unsynced lost
@@ -623,4 +627,50 @@ func (c *crashCtx) lossImages(w *bufio.Writer, dir string, r *rng, thorough bool
 			emit("vec", cuts)
 		}
 	}
+}
+
+// lossAgain: power is lost a second time right after the recovery of a loss image (before any
+// Sync or Close): whatever the recovery wrote and did not fsync is lost again.
+func (c *crashCtx) lossAgain(w *bufio.Writer, img, tag, d string) {
+	work := filepath.Join(c.root, "l2")
+	_ = os.RemoveAll(work)
+	copyDir(img, work)
+	defer os.RemoveAll(work)
+	saved, savedNo := c.synced, c.noImg
+	c.synced, c.noImg = map[string]int64{}, true
+	var l klevdb.Log
+	c.tapOp(work, func() {
+		defer func() { _ = recover() }()
+		l, _ = klevdb.Open(work, c.opts(true))
+	})
+	synced2 := c.synced
+	c.synced, c.noImg = saved, savedNo
+	img2 := filepath.Join(c.root, "l2img")
+	_ = os.RemoveAll(img2)
+	copyDir(work, img2)
+	defer os.RemoveAll(img2)
+	if l != nil {
+		_ = l.Close()
+	}
+	var desc []string
+	ents, _ := os.ReadDir(img2)
+	for _, e := range ents {
+		s, ok := synced2[e.Name()]
+		if !ok {
+			continue // not touched by the recovery: as durable as it was
+		}
+		st, _ := os.Stat(filepath.Join(img2, e.Name()))
+		if s < st.Size() {
+			if s != 0 && s < 8 {
+				s = 0
+			}
+			_ = os.Truncate(filepath.Join(img2, e.Name()), s)
+			desc = append(desc, fmt.Sprintf("%s@%d", e.Name(), s))
+		}
+	}
+	if len(desc) == 0 {
+		return
+	}
+	sort.Strings(desc)
+	fmt.Fprintf(w, "loss.img %s+again cuts=%s|%s => %s\n", tag, d, strings.Join(desc, ","), c.observeImage(img2))
 }
